@@ -477,7 +477,8 @@ def run(chk: common.Check):
               "the shipped cfg). Tie: parser correspondence on the generated layouts; per-atom census correspondence over all protein atoms of the "
               "runs. Search: expected sites from an independent reading of the text vs groups of every conformation and vs summary rows, on TER / OXT / "
               "hetero-block / insertion-code / negative-number / incomplete-residue / nucleotide / ion / chain-selection / multi-model layouts. "
-              "distinct = (case, conformation, number of expected sites)"),
+              "distinct = (case, conformation, number of expected sites)"
+              " Added in rounds 4-6: per-alternate census for alternate locations, summary rows of alternate-location point mutants, --titrate_only naming every residue, hetero-group rows of the report."),
         assumptions=["the census oracle handles files without alternate locations (alt-loc conformations are covered by C08's checks)",
                      "ligand atom typing (which hetero atoms found a group) is not modelled; hetero groups are checked for the configured model pKa and charge of the type they got"],
         trusted=["model/PdbParse.v, model/Census.v hand models (validated each run)", "tools/vlib/tables.py cfg text extraction", "lib/PyString.v"])
